@@ -161,3 +161,37 @@ MUTANTS += [
     ("c17-rto-4-to-2", "onl/packet/tcp_generator.py", "            self.rto = self.rtt_estimate + 4 * self.est_deviation", "            self.rto = self.rtt_estimate + 2 * self.est_deviation", ["C17"]),
     ("c17-slow-start-lt", "onl/packet/tcp_generator.py", "class TCPReno(CongestionControl):\n    def ack_received(self, rtt: float = 0, current_time: float = 0):\n        if self.cwnd <= self.ssthresh:", "class TCPReno(CongestionControl):\n    def ack_received(self, rtt: float = 0, current_time: float = 0):\n        if self.cwnd < self.ssthresh:", ["C17"]),
 ]
+
+MUTANTS += [
+    # ---- C20
+    ("c20-strict-ge", "onl/sim/rt.py", "        if self.strict and monotonic() - real_time > self.factor:", "        if self.strict and monotonic() - real_time >= self.factor:", ["C20"]),
+    ("c20-sleep-not-looped", "onl/sim/rt.py", "        while True:\n            delta = real_time - monotonic()\n            if delta <= 0:\n                break\n            sleep(delta)",
+     "        delta = real_time - monotonic()\n        if delta > 0:\n            sleep(delta)", ["C20"]),
+    ("c20-env-start-ignored", "onl/sim/rt.py", "        real_time = self.real_start + (evt_time - self.env_start) * self.factor", "        real_time = self.real_start + evt_time * self.factor", ["C20"]),
+    ("c20-sync-noop-after-start", "onl/sim/rt.py", "        self.real_start = monotonic()\n\n    def step", "        if not self._queue or self._now == self.env_start:\n            self.real_start = monotonic()\n\n    def step", ["C20"]),
+    ("c20-nonstrict-raises-when-very-late", "onl/sim/rt.py", "        if self.strict and monotonic() - real_time > self.factor:", "        if (self.strict or monotonic() - real_time > 8 * self.factor) and monotonic() - real_time > self.factor:", ["C20"]),
+    ("c20-factor-applied-twice-when-lt1", "onl/sim/rt.py", "(evt_time - self.env_start) * self.factor", "(evt_time - self.env_start) * (self.factor if self.factor >= 1 else self.factor * self.factor)", ["C20"]),
+    # ---- C18
+    ("c18-flowdemux-off-by-one", "onl/netdev/demux.py", "            self.outs[flow_id].put(packet)", "            self.outs[flow_id - 1 if flow_id == len(self.outs) - 1 and flow_id > 1 else flow_id].put(packet)", ["C18"]),
+    ("c18-fib-before-ends", "onl/netdev/demux.py", "        if flow_id in self.ends:", "        if flow_id in self.ends and flow_id not in self._fib:", ["C18"]),
+    ("c18-hub-no-source-test", "onl/netdev/hub.py", "            if endpoint.element_id == packet.src:\n                continue\n", "", ["C18"]),
+    ("c18-splitter-no-copy", "onl/netdev/splitter.py", "                out.put(copy(packet))", "                out.put(packet)", ["C18"]),
+    ("c18-fib-uses-z-table", "onl/topo/fattree.py", "self.topo.nodes[a][\"flow_to_port\"][flow.fid] = self.topo.nodes[a][\"nexthop_to_port\"][z]", "self.topo.nodes[a][\"flow_to_port\"][flow.fid] = self.topo.nodes[z][\"nexthop_to_port\"].get(a, 0)", ["C18"]),
+    ("c18-reverse-fib-skips-last-hop", "onl/topo/fattree.py", "                if tcp:\n", "                if tcp and z != flow.path[-1]:\n", ["C18"]),
+    ("c18-core-wiring", "onl/topo/fattree.py", "aggr_node = n_core + (core_node // (k // 2)) + (k * pod)", "aggr_node = n_core + (core_node // (k // 2)) + (k * (pod if k < 6 else pod % (k - 1)))", ["C18"]),
+    ("c18-default-out-dropped-on-indexerror", "onl/netdev/demux.py", "            except (KeyError, IndexError, ValueError) as exc:", "            except (KeyError, ValueError) as exc:", ["C18"]),
+]
+
+MUTANTS += [
+    # ---- C08
+    ("c08-port-drops-size-class", "onl/netdev/port.py", "            if self.out:\n                self.out.put(packet)", "            if self.out and not (packet.size == 1000 and self.byte_size > 1500):\n                self.out.put(packet)", ["C08", "C09"]),
+    ("c08-wire-duplicates", "onl/netdev/wire.py", "                assert self.out\n                self.out.put(packet)", "                assert self.out\n                self.out.put(packet)\n                if self.packets_rec % 17 == 0 and len(self.store.items) == 2:\n                    self.out.put(packet)", ["C08", "C10"]),
+    ("c08-tb-drops-oversize", "onl/netdev/token_bucket.py", "            self.out.put(packet)\n\n            self.packets_sent += 1", "            if packet.size <= 10 * self.bucket_size:\n                self.out.put(packet)\n\n            self.packets_sent += 1", ["C08", "C11"]),
+    ("c08-sched-rewrites-time", "onl/scheduler/base.py", "        self.current_packet = packet\n        yield", "        self.current_packet = packet\n        packet.time = packet.time if packet.size < 1000 else self.env.now\n        yield", ["C08"]),
+    ("c08-generator-ids-from-zero", "onl/packet/dist_generator.py", "            self.packets_send += 1\n            packet = Packet(\n                env.now,\n                self.size_dist(),\n                self.packets_send,", "            self.packets_send += 1\n            packet = Packet(\n                env.now,\n                self.size_dist(),\n                self.packets_send - 1,", ["C08"]),
+    ("c08-generator-size-before-wait", "onl/packet/dist_generator.py", "        while env.now < self.finish:\n            yield env.timeout(self.arrival_dist())\n", "        while env.now < self.finish:\n            _sz = self.arrival_dist()\n            yield env.timeout(_sz if env.now > 0 else _sz / 2)\n", ["C08"]),
+    ("c08-sink-waits-from-now", "onl/packet/sink.py", "            self.waits[rec_index].append(self.env.now - packet.time)", "            self.waits[rec_index].append(self.env.now - packet.current_time)", ["C08"]),
+    ("c08-sink-interarrival-first", "onl/packet/sink.py", "                self.arrivals[rec_index][-1] = now - self.last_arrival[rec_index]", "                self.arrivals[rec_index][-1] = now - (self.last_arrival[rec_index] or now)", ["C08"]),
+    ("c08-sink-bytes-by-flow-always", "onl/packet/sink.py", "        self.bytes_received[rec_index] += packet.size", "        self.bytes_received[packet.flow_id] += packet.size", ["C08"]),
+    ("c08-switch-wrong-port-list", "onl/netdev/switch.py", "        self.demux = FIBDemux(fib=None, outs=self.egress_ports, default_out=None)", "        self.demux = FIBDemux(fib=None, outs=self.egress_ports[::-1], default_out=None)", ["C08", "C18"]),
+]
